@@ -204,20 +204,37 @@ func (s *handler) handleReader(ctx context.Context, r io.Reader, w io.Writer, rp
 			return
 		}
 
-		_, _ = w.Write([]byte("[")) // todo consider handling this error
-		for idx, req := range reqs {
-			if req.ID, err = normalizeID(req.ID); err != nil {
-				rpcError(wf, &req, rpcParseError, xerrors.Errorf("failed to parse ID: %w", err))
-				return
+		// Each element is rendered into its own buffer so that separators are
+		// only written between responses that actually exist (notifications
+		// produce none) and the array is always terminated.
+		first := true
+		for _, req := range reqs {
+			var elem bytes.Buffer
+			ewf := func(cb func(io.Writer)) {
+				cb(&elem)
 			}
 
-			s.handle(ctx, req, wf, rpcError, func(bool) {}, nil)
+			if req.ID, err = normalizeID(req.ID); err != nil {
+				rpcError(ewf, &req, rpcParseError, xerrors.Errorf("failed to parse ID: %w", err))
+			} else {
+				s.handle(ctx, req, ewf, rpcError, func(bool) {}, nil)
+			}
 
-			if idx != len(reqs)-1 {
+			if elem.Len() == 0 {
+				continue // notification, nothing to send
+			}
+
+			if first {
+				_, _ = w.Write([]byte("[")) // todo consider handling this error
+				first = false
+			} else {
 				_, _ = w.Write([]byte(",")) // todo consider handling this error
 			}
+			_, _ = w.Write(elem.Bytes()) // todo consider handling this error
 		}
-		_, _ = w.Write([]byte("]")) // todo consider handling this error
+		if !first {
+			_, _ = w.Write([]byte("]")) // todo consider handling this error
+		}
 	} else {
 		var req request
 		if err := json.NewDecoder(bufferedRequest).Decode(&req); err != nil {
